@@ -114,6 +114,7 @@ fn main() {
       };
       let seed: u64 = arg_val(&args, "--seed").and_then(|s| s.parse().ok()).unwrap_or(0);
       let profile = arg_val(&args, "--profile").unwrap_or_else(|| "release".to_string());
+      set_profile(&profile);
       let part = arg_val(&args, "--part");
       if let Err(e) = self_test() {
         eprintln!("SELF-TEST FAILURE (harness problem, not a verdict): {}", e);
@@ -150,6 +151,7 @@ fn main() {
     "replay" => {
       let file = args.get(2).cloned().unwrap_or_default();
       let profile = arg_val(&args, "--profile").unwrap_or_else(|| "release".to_string());
+      set_profile(&profile);
       let txt = match std::fs::read_to_string(&file) {
         Ok(t) => t,
         Err(e) => {
